@@ -11,6 +11,7 @@ import (
 	"io"
 	"math/rand"
 	"net/http"
+	"net/http/httptest"
 	"runtime"
 	"sort"
 	"strings"
@@ -59,6 +60,31 @@ type c16ConcReq struct {
 	InFlyID int    `json:"id_carrying_requests_in_flight_at_start"`
 	Rcode   int    `json:"rcode"`
 	Err     string `json:"error,omitempty"`
+	// Admin names the admin handlers a controller called during the round
+	// ("" = none); AdminCalls is how many of these calls ended, or were in
+	// progress, between the start and the end of this request.
+	Admin      string `json:"admin_calls_during_round,omitempty"`
+	AdminCalls int    `json:"admin_calls_overlapping_this_request,omitempty"`
+}
+
+// c16AdminKinds are the controller's repertoires, cycled over the rounds.
+// Only handlers that a user can trigger and that do not rebuild the proxy
+// (no Reconfigure/Prepare): nothing they do may touch requests in flight.
+var c16AdminKinds = []string{"", "cache_clear", "read-only-handlers"}
+
+// c16AdminCall calls one registered admin handler of the server directly.
+func c16AdminCall(s *Server, kind string, n int64) {
+	w := httptest.NewRecorder()
+	switch kind {
+	case "cache_clear":
+		s.handleCacheClear(w, httptest.NewRequest(http.MethodPost, "/control/cache_clear", nil))
+	default:
+		if n%2 == 0 {
+			s.handleGetConfig(w, httptest.NewRequest(http.MethodGet, "/control/dns_info", nil))
+		} else {
+			s.handleAccessList(w, httptest.NewRequest(http.MethodGet, "/control/access/list", nil))
+		}
+	}
 }
 
 // c16ConcEnv is the server side as the senders see it.
@@ -324,11 +350,40 @@ func TestVerifC16Concurrent(t *testing.T) {
 	defer runtime.GOMAXPROCS(oldProcs)
 
 	results := make([][]*c16ConcReq, len(senders))
-	var seq atomic.Int64
+	var seq, adminSeq, adminBusy atomic.Int64
+	ctlRng := rep.Rand("concurrent-controller")
 	for round := 0; round < rounds; round++ {
 		runtime.GOMAXPROCS(procs[round%len(procs)])
 		start := make(chan struct{})
 		wg := &sync.WaitGroup{}
+
+		// The controller: admin calls back to back for as long as the
+		// senders of the round are at work.
+		admin := c16AdminKinds[round%len(c16AdminKinds)]
+		stop := make(chan struct{})
+		ctlDone := make(chan struct{})
+		go func() {
+			defer close(ctlDone)
+			if admin == "" {
+				return
+			}
+			<-start
+			for {
+				select {
+				case <-stop:
+					return
+				default:
+				}
+				adminBusy.Add(1)
+				c16AdminCall(s, admin, adminSeq.Load())
+				adminSeq.Add(1)
+				adminBusy.Add(-1)
+				rep.Event("admin_calls:" + admin)
+				if ctlRng.Intn(3) == 0 {
+					time.Sleep(time.Duration(ctlRng.Intn(60)) * time.Microsecond)
+				}
+			}
+		}()
 		for _, sd := range senders {
 			wg.Add(1)
 			go func(sd *c16Sender) {
@@ -341,8 +396,9 @@ func TestVerifC16Concurrent(t *testing.T) {
 						time.Sleep(time.Duration(sd.rng.Intn(150*j)) * time.Microsecond)
 					}
 					n := seq.Add(1)
-					r := &c16ConcReq{Sender: sd.Idx, Round: round,
+					r := &c16ConcReq{Sender: sd.Idx, Round: round, Admin: admin,
 						QName: fmt.Sprintf("c%d-s%d-r%d.c16-concurrent.example.", n, sd.Idx, round)}
+					adminAtStart := adminSeq.Load()
 					m := &dns.Msg{
 						MsgHdr:   dns.MsgHdr{Id: dns.Id(), RecursionDesired: true},
 						Question: []dns.Question{{Name: r.QName, Qtype: dns.TypeA, Qclass: dns.ClassINET}},
@@ -353,6 +409,7 @@ func TestVerifC16Concurrent(t *testing.T) {
 						r.InFlyID = int(env.inFlightID.Load())
 					}
 					rcode, err := sd.exchange(env, m)
+					r.AdminCalls = int(adminSeq.Load()-adminAtStart) + int(adminBusy.Load())
 					if sd.Want != "" {
 						env.inFlightID.Add(-1)
 					}
@@ -366,6 +423,8 @@ func TestVerifC16Concurrent(t *testing.T) {
 		}
 		close(start)
 		wg.Wait()
+		close(stop)
+		<-ctlDone
 		rep.Event("rounds")
 	}
 	runtime.GOMAXPROCS(oldProcs)
@@ -383,6 +442,9 @@ func TestVerifC16Concurrent(t *testing.T) {
 			}
 			if sd.Want == "" && overlapped {
 				rep.Event("plain_requests_started_while_id_carrying_in_flight")
+			}
+			if sd.Want != "" && r.Admin != "" && r.AdminCalls > 0 {
+				rep.Event("id_carrying_requests_overlapping_admin_call:" + r.Admin)
 			}
 			es := qlog.get(r.QName)
 			if r.Err != "" || r.Rcode != dns.RcodeSuccess || len(es) != 1 {
@@ -425,6 +487,16 @@ func TestVerifC16Concurrent(t *testing.T) {
 			if sd.Want == "" {
 				rep.Violate("processing-stage:concurrent:request-without-id-attributed",
 					fmt.Sprintf("a plain %s request sent among overlapping id-carrying requests was attributed to %q (%s)", sd.Proto, got, kind), w)
+			} else if got == "" {
+				during := "no-admin-call"
+				if r.Admin != "" {
+					during = r.Admin
+				}
+				w["note"] = "schedule-dependent: the ClientID stored by HandleBefore was gone when the processing stage read it; " +
+					"no Reconfigure/Prepare took place, only the admin handlers named in the request record were called"
+				rep.Violate("processing-stage:concurrent:clientid-lost:during-"+during,
+					fmt.Sprintf("a %s request that presented ClientID %q was processed and logged without a ClientID (%d %s calls overlapped it)",
+						sd.Proto, sd.ID, r.AdminCalls, during), w)
 			} else {
 				rep.Violate("processing-stage:concurrent:wrong-clientid",
 					fmt.Sprintf("a %s request that presented ClientID %q was attributed to %q (%s) while other senders' requests overlapped", sd.Proto, sd.ID, got, kind), w)
@@ -438,6 +510,11 @@ func TestVerifC16Concurrent(t *testing.T) {
 	idTotal := nID * rounds * perRound
 	if got := rep.Events["id_carrying_requests_started_while_another_was_in_flight"]; got*4 < idTotal {
 		rep.Inconcl(fmt.Sprintf("only %d of %d id-carrying requests overlapped with another one", got, idTotal))
+	}
+	for _, k := range c16AdminKinds[1:] {
+		if got := rep.Events["id_carrying_requests_overlapping_admin_call:"+k]; got*12 < idTotal {
+			rep.Inconcl(fmt.Sprintf("only %d of %d id-carrying requests overlapped with a %s call", got, idTotal, k))
+		}
 	}
 	for _, p := range []string{"tls", "https", "quic", "udp", "tcp"} {
 		if rep.Classes["concurrent:"+p] == 0 {
